@@ -48,12 +48,14 @@ def cases_for(prop, tier):
         for v in vecs:
             yield {'stack': 'move', 'vec': v}
         yield {'stack': 'move', 'vec': 'sw', 'as_list': True}
+        yield {'stack': 'move', 'vec': 'sss', 'refill': True}
         yield {'stack': 'move', 'vec': 'ss', 'dest_fault': 'hang-after-last'}
         yield {'stack': 'move', 'vec': 's' if not thorough else 'sw', 'clients': 2}
         for v in (['', 's', 'sws'] + (['ss', 'sf', 'ssss'] if thorough else [])):
             yield {'stack': 'get', 'vec': v, 'pending': True}
         yield {'stack': 'get', 'vec': 'ss', 'pending': False}
         yield {'stack': 'get', 'vec': 'sw', 'pending': True, 'twice': True}
+        yield {'stack': 'get', 'vec': 'sws', 'pending': False, 'same_ids': True}
     elif prop == 'C15':
         yield {'stack': 'same-uid', 'n': 2}
         yield {'stack': 'same-uid', 'n': 2, 'pre': True}
@@ -180,6 +182,16 @@ def make(case):
                     L = str(ds.PatientID)
                     log.append(('move-rq', L, str(destination)))
                     # (the application may hand the instances over as a list or as an iterator)
+                    if case.get('refill'):
+                        # an application that loads one instance at a time into the same Dataset object
+                        def gen(items=sets[L]):
+                            import pydicom
+                            one = pydicom.Dataset()
+                            for d in items:
+                                one.clear()
+                                one.update(d)
+                                yield one
+                        return {'aet': 'DEST', 'address': 'dest', 'port': 104}, len(sets[L]), gen()
                     return {'aet': 'DEST', 'address': 'dest', 'port': 104}, len(sets[L]), (list(sets[L]) if case.get('as_list') else iter(sets[L]))
             qr = assoc.make_ae('QR', [IMPL], 16384, [sopclass.qr_move_scp], cls=MoveAE)
             qr.add_scu(sopclass.storage_scu, [CT])
@@ -216,7 +228,9 @@ def make(case):
                 done = 0
                 for i, d in enumerate(insts):
                     rq = dimsemessages.CStoreRQMessage()
-                    rq.message_id = 0 if i == 0 else 700 + i       # (0 is a legitimate message id)
+                    # (0 is a legitimate message id; 'same_ids': the provider numbers every sub-operation alike - only outstanding
+                    # ids have to differ)
+                    rq.message_id = 5 if case.get('same_ids') else (0 if i == 0 else 700 + i)
                     rq.sop_class_uid = d.SOPClassUID
                     rq.affected_sop_instance_uid = d.SOPInstanceUID
                     rq.priority = 0
@@ -398,9 +412,11 @@ def make(case):
 
             def body(asce):
                 results['echo'] = int(asce.get_scu(VERIF)(97))
+                results['echo_after'] = round(e3.cur().now - results['t_start'], 2)
 
             def later():
                 e3.cur().sleep(3.0)
+                results['t_start'] = e3.cur().now
                 run_client(body, cae, {'aet': 'SCP', 'address': 'srv', 'port': 104})()
             sched.spawn(later, 'client')
 
@@ -604,7 +620,8 @@ def judge(case, out):
             viol.append((sig + ':instances', 'caller was handed %d instances %r, provider sent %d (%s)' % (
                 len(gd), [exp_all.index(d) if d in exp_all else '?' for d in gd], n, where)))
         rsps = [x for x in log if x[0] == 'store-rsp']
-        exp_r = [('store-rsp', i, 'CStoreRSPMessage', True, 0 if i == 0 else 700 + i, r['insts'][i][0], OUT[vec[i]] if vec[i] != 'f' else None) for i in range(n)] * reps
+        exp_r = [('store-rsp', i, 'CStoreRSPMessage', True, 5 if case.get('same_ids') else (0 if i == 0 else 700 + i), r['insts'][i][0],
+                  OUT[vec[i]] if vec[i] != 'f' else None) for i in range(n)] * reps
         bad = [(g, e) for g, e in zip(rsps, exp_r) if g[:6] != e[:6] or (e[6] is not None and g[6] != e[6]) or
                (e[6] is None and g[6] in (0, 0xB000, 0xFF00, 0xFF01))]
         n *= reps
@@ -668,6 +685,9 @@ def judge(case, out):
     elif kind == 'artim-next-to-echo':
         if r.get('echo') != 0:
             viol.append((sig + ':echo', 'echo status %r (%s)' % (r.get('echo'), where)))
+        if r.get('echo_after') is None or r['echo_after'] > 2.0:
+            viol.append((sig + ':held-up', 'next to a connection on which the peer sends nothing, setting up another association and one echo took %r virtual '
+                         'seconds (%s)' % (r.get('echo_after'), where)))
         sl = r.get('silent')
         if sl is None or sl[0] != 0 or not (9.9 <= sl[1] <= 10.3):
             viol.append((sig + ':artim', 'a connection on which the peer never sent anything was closed after %r (bytes received by the peer, virtual seconds); '
